@@ -97,6 +97,14 @@ v('C07', 'fire', KA, 'cho_solve((L, True), HP', 'cho_solve((L, False), HP')
 v('C07', 'fire', KA, 'S = HP @ H.T + R', 'S = HP @ H.T')
 v('C07 C19', 'fire', KA, 'K = cho_solve((L, True), HP, overwrite_b=True).T', 'K = cho_solve((L, True), P, overwrite_b=True).T')
 v('C07', 'silent', KA, 'U = np.eye(len(x)) - K.dot(H)', 'U = np.identity(len(x)) - K @ H')
+v('C19', 'fire', 'util.py', """    if bt:
+        if b.ndim == 3:
+            b = np.transpose(b, (0, 2, 1))""", """    if bt:
+        if b.ndim == 3:
+            b = np.transpose(b, (0, 1, 2))""", 'mm_prod: stacked arm of the b-transposition is a no-op')
+v('C19', 'fire', 'util.py', '    return np.einsum("...ij,...j->...i", a, b)', '    return np.einsum("...ji,...j->...i", a, b)', 'mv_prod: transposed contraction')
+v('C19', 'fire', 'util.py', '    return mm_prod(ab, a, bt=True)', '    return mm_prod(ab, a, at=True)', 'mm_prod_symmetric: wrong operand transposed')
+v('C19', 'silent', 'util.py', '    return np.einsum("...ij,...jk->...ik", a, b)', '    return np.einsum("...ik,...kj->...ij", a, b)', 'einsum index names')
 v('C05', 'fire', 'error_model.py', '            result = self.TRANSFORM_2D_3D @ result\n        return result', '            result = np.linalg.pinv(self._transform_3d_2d(pva.VN, pva.VE)) @ result\n        return result', 'seeded C05 round 3: 2-D reduction by the pseudo-inverse of the embedding (vertical velocity error leaks into tilt)')
 v('C09 C12', 'fire', 'filters.py', "integrator.predict((measurement_time - time) / increment['dt'] *", "integrator.predict((measurement_time - time) / time_step *", 'feedback epoch state: fraction of the covariance step instead of the sampling interval')
 v('C09 C12', 'fire', 'filters.py', "pd.Series(increment[THETA_COLS].values / increment['dt'],", "pd.Series(increment[DV_COLS].values / increment['dt'],", 'feedback epoch state: body rates from the velocity increment')
